@@ -90,13 +90,121 @@ def vv_namespace(ctx):
     ctx.extra["uidvalidity_namespace_cases"] = n
 
 
+def midcopy_deliveries(ctx):
+    """An MH tool is another process: it can drop a message into the DESTINATION folder while COPY / MOVE / APPEND is writing
+    there (the server holds no folder lock across its writes).  COPYUID / APPENDUID must still name the UIDs the copies
+    actually got: every pair (source UID, destination UID) must be the same message (Message-ID read from the files)."""
+    import re
+    import asimap.mh
+
+    def expand(s):
+        out = []
+        for part in s.split(","):
+            a, _, b = part.partition(":")
+            out += list(range(int(a), int(b or a) + 1)) if int(b or a) >= int(a) else list(range(int(a), int(b) - 1, -1))
+        return out
+
+    def cid_by_uid(w, box):
+        mb = w.server.active_mailboxes.get(box)
+        res = {}
+        if mb is None:
+            return res
+        for uid, key in zip(mb.uids, mb.msg_keys):
+            try:
+                txt = (w.root / box / str(key)).read_bytes()
+            except OSError:
+                continue
+            m = re.search(rb"Message-ID: <(\d+)@verif>", txt)
+            res[uid] = int(m.group(1)) if m else None
+        return res
+
+    n = 0
+    cases = [("COPY 1:3 work", "work"), ("UID COPY 1:3 work", "work"), ("MOVE 1:3 work", "work"), ("COPY 2:3 inbox", "inbox"),
+             ("COPY 1:3 work", "work"), ("APPEND", "work"), ("APPEND", "inbox")]
+    for ci, (text, dest) in enumerate(cases):
+        for after in (1, 2):
+            if text == "APPEND" and after == 2:
+                continue
+            w = W.World(seed=ctx.rng.randrange(1 << 30))
+            try:
+                w.session("A"); w.session("B")
+                w.cmd("A", "x CREATE work")
+                w.deliver("inbox", 4, unseen=True)
+                w.deliver("work", 2 if ci != 4 else 0, unseen=False)
+                w.cmd("A", "a SELECT inbox"); w.cmd("B", "b SELECT work")
+                w.drain("A"); w.drain("B")
+                src_before = cid_by_uid(w, "inbox")
+                state = {"adds": 0, "delivered": [], "busy": False}
+                orig = asimap.mh.MH.add
+
+                def add(self, message, _orig=orig):
+                    key = _orig(self, message)
+                    if not state["busy"] and str(self._path).rstrip("/").endswith("/" + dest):
+                        state["adds"] += 1
+                        if state["adds"] == after and not state["delivered"]:
+                            state["busy"] = True
+                            try:
+                                state["delivered"] = w.deliver(dest, 1, unseen=True)
+                            finally:
+                                state["busy"] = False
+                    return key
+                asimap.mh.MH.add = add
+                try:
+                    if text == "APPEND":
+                        lit = W.make_msg(900 + ci)
+                        out = w.cmd("A", f"t APPEND {dest} {{{len(lit)}}}\r\n" + lit.decode())
+                    else:
+                        out = w.cmd("A", "t " + text)
+                finally:
+                    if "add" in asimap.mh.MH.__dict__:
+                        del asimap.mh.MH.add
+                if not state["delivered"]:
+                    continue
+                n += 1
+                ctx.count({"delivery_into_destination_during": text, "after_add": after, "dest": dest}, nontrivial=True)
+                tagged = b"".join(o for o in out if o.startswith(b"t "))
+                w.settle(25)
+                w.cmd("A", "n NOOP"); w.cmd("B", "n NOOP")
+                dst_now = cid_by_uid(w, dest)
+                rep = {"command": text, "delivery_after_add": after, "tagged": tagged.decode("latin-1"),
+                       "sent": [o.decode("latin-1") for o in out if b"UID" in o][:3],
+                       "destination_uid_to_message": dst_now, "source_uid_to_message": src_before}
+                m = re.search(rb"\[COPYUID (\d+) (\S+) (\S+)\]", b"".join(out))   # MOVE sends it in an untagged OK
+                if m:
+                    pairs = list(zip(expand(m.group(2).decode()), expand(m.group(3).decode())))
+                    wrong = [(a, b) for a, b in pairs if src_before.get(a) is None or dst_now.get(b) != src_before.get(a)]
+                    if wrong or len(pairs) != (2 if "2:3" in text else 3):
+                        ctx.violation("COPYUID does not report the UIDs the copies were given (a delivery arrived in the "
+                                      f"destination during the command): source UID {wrong[0][0] if wrong else '?'} is not "
+                                      f"destination UID {wrong[0][1] if wrong else '?'}", rep)
+                        continue
+                elif text != "APPEND" and tagged.startswith(b"t OK"):
+                    ctx.violation("COPY/MOVE completed without COPYUID", rep)
+                m = re.search(rb"\[APPENDUID (\d+) (\d+)\]", tagged)
+                if text == "APPEND":
+                    if not m or dst_now.get(int(m.group(2))) != 900 + ci:
+                        ctx.violation("APPENDUID does not name the UID the appended message was given (a delivery arrived in "
+                                      "the destination during the command)", rep)
+                # the ledger: ascending, below UIDNEXT
+                mb = w.server.active_mailboxes.get(dest)
+                if mb is not None and (sorted(set(mb.uids)) != list(mb.uids) or (mb.uids and mb.uids[-1] >= mb.next_uid)):
+                    ctx.violation("UIDs not strictly ascending below UIDNEXT after a delivery during COPY/APPEND",
+                                  dict(rep, uids=list(mb.uids), next_uid=mb.next_uid))
+            finally:
+                if "add" in asimap.mh.MH.__dict__:
+                    del asimap.mh.MH.add
+                w.close()
+    ctx.extra["midcopy_delivery_cases"] = n
+
+
 def run(ctx):
     ctx.coverage["rule"] = ("histories of 45/70 commands over 1-3 sessions and two mailboxes, biased to message-adding and "
                             "-removing commands, external deliveries, polls (packing enabled at 4 messages / ratio 0.8), "
                             "orderly restarts; non-trivial = the history assigned a UID after an expunge in the same mailbox "
                             "(a gap where reuse could show) or contains a restart. Plus: histories with deliveries the server cannot see yet "
                             "(folder mtime unchanged; ledger and binding oracles only); DELETE/CREATE (also subscribed / with inferiors / "
-                            "with a restart) and RENAME UIDVALIDITY scenarios")
+                            "with a restart) and RENAME UIDVALIDITY scenarios; COPY/UID COPY/MOVE/APPEND with a delivery dropped into the destination "
+                            "folder right after the server's first or second write there (COPYUID/APPENDUID pairs checked by Message-ID)")
     ok = ctx.prove("Properties/C02.v")
     n = 400 if ctx.thorough else 64
     hs = mboxx.generate(ctx, n, 70 if ctx.thorough else 45, mix=MIX, pack=(4, 4, 5))
@@ -134,6 +242,7 @@ def run(ctx):
     bad, _ = mboxx.compare(ctx, "c02", hs)
     report_diffs(ctx, "C02", hs, bad, "model (proved) and implementation disagree (UIDs / UIDNEXT / response codes)")
     vv_namespace(ctx)
+    midcopy_deliveries(ctx)
     ctx.coverage["traces_validated_against_impl"] = len(hs) - len({i for i, _ in bad})
     ctx.extra.update({"histories": len(hs), "packs_observed": packs, "op_mix": _mix(hs)})
     ctx.assume += ["crash points are C11's; the persisted form (compact/expand of UID lists) is exercised through restarts",
